@@ -314,7 +314,16 @@ func c06Late(r *core.Result, s *session, env *core.Env) {
 	finishedReplayed := map[*sim.Node]bool{}
 	failed := false
 	replay := func(n *sim.Node, why string) {
-		for _, m := range got[n] {
+		list := got[n]
+		if strings.HasPrefix(why, "in the middle") {
+			// newest first, so that the oldest message is the one handed in last
+			rev := make([]rec, len(list))
+			for i := range list {
+				rev[len(list)-1-i] = list[i]
+			}
+			list = rev
+		}
+		for _, m := range list {
 			if failed {
 				return
 			}
